@@ -9,12 +9,12 @@ TEXT["C02"] = dict(
 )
 
 TEXT["C03"] = dict(
-    level="Reference-grammar runtime monitoring: ValidateHostname / ValidateDomainName / ValidateSRVDomainName are run on tens of millions of generated names (bounded-exhaustive label sequences over a boundary pool, length boundaries 63/253 incl. IDN punycode growth, numeric TLDs of every width, alphabet sweeps, mutants, seeded random) and compared with a regexp grammar over idna.ToASCII(s) written from the statement; the subset chain, the dynamic error type and AddrError.Addr are asserted on every rejection. Exploration: all strings cannot be enumerated.",
+    level="Reference-grammar runtime monitoring: ValidateHostname / ValidateDomainName / ValidateSRVDomainName are run on tens of millions of generated names (bounded-exhaustive label sequences over a boundary pool, length boundaries 63/253 incl. IDN punycode growth, numeric TLDs of every width, look-alike separators, texts of thousands of equal bytes, alphabet sweeps, mutants, seeded random; one of the three calls per name is preceded by a call with a fold-equal twin of the name) and compared with a regexp grammar over idna.ToASCII(s) written from the statement; the subset chain, the dynamic error type and AddrError.Addr are asserted on every rejection. Exploration: all strings cannot be enumerated.",
     note="Trusts idna.ToASCII (x/net v0.39.0, the version golibs pins) and Go's regexp; the grammar is the statement's, not the code's.",
     technique="runtime reference-model monitor (regexp grammar oracle) over bounded-exhaustive label sequences and generated names",
 )
 TEXT["C04"] = dict(
-    level="Round-trip and canonical-form runtime monitoring: every generated address (boundary octets^4, every nibble position, wrong-length slices, random IPv6; thorough: all 2^32 IPv4) is encoded and compared with an independent RFC 1035/3596 encoder and decoded back in several letter cases with/without trailing dot; every generated name-shaped string is decoded and an accepted one must be the canonical name of the returned address. Exploration.",
+    level="Round-trip and canonical-form runtime monitoring: every generated address (boundary octets^4, every nibble position, wrong-length slices, random IPv6; thorough: all 2^32 IPv4) is encoded (through one net.IP buffer per length that is refilled for every case and must come back unchanged) and compared with an independent RFC 1035/3596 encoder and decoded back in several letter cases with/without trailing dot; every generated name-shaped string is decoded and an accepted one must be the canonical name of the returned address. Exploration.",
     note="Trusts the independent encoder in harness/ref (40 lines) and netip value equality.",
     technique="runtime round-trip monitor plus accepted-language monitor against an independent encoder",
 )
@@ -30,12 +30,12 @@ TEXT["C06"] = dict(
 )
 
 TEXT["C11"] = dict(
-    level="Abstract-model runtime monitoring: every operation history up to the stated depth (sets: 5/7 operations over Add/Delete x 4 values, Clear, two kinds of Clone, from 3 initial contents; ring: 14/21 operations over Push/Clear for capacities 0..6) is executed on the real containers while a Go map / push-log model is advanced in lock-step, and ALL queries are compared after every operation, including early-terminating ranges and the frozen other side of every Clone. Random walks over sets of up to 5000 values (bulk Add/Delete, Clear, Clone) and ring buffers of capacity 7..4096 add the sizes at which implementations change strategy. The enumerated history space is swept completely; longer histories are not, hence exploration.",
+    level="Abstract-model runtime monitoring: every operation history up to the stated depth (sets: 5/7 operations over Add/Delete x 4 values, Clear, two kinds of Clone, from 3 initial contents; ring: 14/21 operations over Push/Clear for capacities 0..6) is executed on the real containers while a Go map / push-log model is advanced in lock-step, and ALL queries are compared after every operation, including early-terminating ranges, iterations whose callback iterates over the same ring buffer, and the frozen other side of every Clone. Random walks over sets of up to 5000 values (bulk Add/Delete, Clear, Clone) and ring buffers of capacity 7..4096 add the sizes at which implementations change strategy. The enumerated history space is swept completely; longer histories are not, hence exploration.",
     note="Trusts the 30-line models in harness/c11; only documented nil-receiver behaviour is demanded.",
     technique="runtime shadow-model monitor over bounded-exhaustive operation histories",
 )
 TEXT["C13"] = dict(
-    level="Literal-definition runtime monitoring: ContainsFold and SplitTrimmed are compared with the definitions in the statement on exhaustive (s, sub) pairs over every rune of every simple-fold orbit with more than two members (derived from unicode.SimpleFold at run time), on needles inserted as random case variants into random haystacks, and on all strings up to length 6/7 over a whitespace/separator alphabet x 18 separators. Exploration.",
+    level="Literal-definition runtime monitoring: ContainsFold and SplitTrimmed are compared with the definitions in the statement on exhaustive (s, sub) pairs over every rune of every simple-fold orbit with more than two members (derived from unicode.SimpleFold at run time), on needles inserted as random case variants into random haystacks, on needles of 1..1000 runes against haystacks that differ from a case variant at exactly one position, and on all strings up to length 6/7 over a whitespace/separator alphabet x 18 separators. Exploration.",
     note="Trusts strings.EqualFold / unicode.SimpleFold / strings.Split / TrimSpace of the pinned stdlib; the two forms of the ContainsFold reference are cross-checked on ASCII.",
     technique="runtime differential monitor against the literal reference definitions over fold-orbit alphabets",
 )
@@ -50,7 +50,7 @@ TEXT["C15"] = dict(
     technique="runtime conservation monitor (hooked wrapped reader/writer) over bounded-exhaustive fault scripts",
 )
 TEXT["C16"] = dict(
-    level="Two-run non-interference runtime monitoring: for each generated base URL the redaction is run once per credential of a 15-element pool and all outputs must coincide; field equality, input immutability and pointer identity for nil userinfo are asserted on every run; the same *url.URL is redacted again after its components and credentials changed; the error-rewriting function is observed on five kinds of error values, nested *url.Error chains, chained use and error texts that differ from the URL; a race-detector stage shares one *url.URL between redacting, error-rewriting and reading goroutines (the input must never be modified, not even transiently). Exploration over generated URLs and schedules.",
+    level="Two-run non-interference runtime monitoring: for each generated base URL the redaction is run once per credential of a 15-element pool and all outputs must coincide; field equality, input immutability and pointer identity for nil userinfo are asserted on every run; the same *url.URL is redacted again after its components and credentials changed, and again after the caller edited the first result; the error-rewriting function is observed on five kinds of error values, nested *url.Error chains, chained use and error texts that differ from the URL; a race-detector stage shares one *url.URL between redacting, error-rewriting and reading goroutines (the input must never be modified, not even transiently). Exploration over generated URLs and schedules.",
     note="Trusts url.URL.String, reflect.DeepEqual and the race detector.",
     technique="runtime two-run (pairwise) comparison monitor + race detector on a shared input",
 )
@@ -90,7 +90,7 @@ TEXT["C10"] = dict(
 )
 
 TEXT["C17"] = dict(
-    level="Stress monitoring under the race detector plus exact quiescence monitoring in synctest bubbles. Stress: 20 000 / 600 000 barrier-started rounds of concurrent Get calls (count and pointer-identity oracles; the evidence reports how many rounds had two or more callers inside one construction window) and semaphore loops with a live-holder counter (the evidence reports that the counter reached the capacity). Bubbles: every arrival order of up to 6/9 callers over up to 3 keys x every subset of parked constructions, and every script of up to 4/6 steps over 10 semaphore actions for capacities 0..3 (one bubble per scenario, run on all cores), plus wide scenarios with up to 1100 keys (one key under construction while the others are built, re-entrant construction, all constructions held at once) and keys whose printed form is unstable, each judged after synctest.Wait() so that 'blocked' and 'returned' are facts, not timeouts. Exploration over schedules.",
+    level="Stress monitoring under the race detector plus exact quiescence monitoring in synctest bubbles. Stress: 20 000 / 600 000 barrier-started rounds of concurrent Get calls (count and pointer-identity oracles; the evidence reports how many rounds had two or more callers inside one construction window) and semaphore loops with a live-holder counter (the evidence reports that the counter reached the capacity). Bubbles: every arrival order of up to 6/9 callers over up to 3 keys x every subset of parked constructions, and every script of up to 4/6 steps over 10 semaphore actions for capacities 0..3 (one bubble per scenario, run on all cores), keys that are the nil interface, GOMAXPROCS changed between Gets, plus wide scenarios with up to 4100 keys (one key under construction while the others are built, re-entrant construction, all constructions held at once) and keys whose printed form is unstable, each judged after synctest.Wait() so that 'blocked' and 'returned' are facts, not timeouts. Exploration over schedules.",
     note="Trusts testing/synctest of Go 1.24.2 and the race detector. A goroutine blocked on something the bubble cannot see (e.g. a mutex) is caught by the bounded-progress watchdog and a solo re-run.",
     technique="race-detector stress with counting monitors + synctest-bubble scenario enumeration judged at quiescence",
 )
@@ -106,7 +106,7 @@ TEXT["C19"] = dict(
     technique="runtime differential monitor on the writer boundary (reference text handler) + race detector with an unsynchronised recording writer",
 )
 TEXT["C20"] = dict(
-    level="Per-request-id trace checking under concurrency: tens of thousands of requests, each self-identifying in six places, pass through one LogMiddleware from up to 64 goroutines while an in-handler barrier provably holds several requests inside the wrapped handler at once (the evidence reports the maximum observed) and releases them in enumerated orders; handlers follow six scripts (nothing, Write, WriteHeader, 1xx+WriteHeader, Flush through a ResponseController, Hijack over the real server); log records (from copying and from slice-retaining slog handlers that yield at the suspension points), handler-side observations and client-side responses are grouped by id and must be mutually consistent; repeated under the race detector, with GOMAXPROCS=2 over a real loopback server with keep-alive clients (origin-form, absolute-form and * request targets, chunked bodies with trailers), and with golibs' own JSONHybridHandler carrying 0..12 chained attributes as the base logger. Middleware order is checked for every permutation of up to 5/7 middlewares, wrapping the same slice repeatedly. Exploration over schedules.",
+    level="Per-request-id trace checking under concurrency: tens of thousands of requests, each self-identifying in six places, pass through one LogMiddleware from up to 64 goroutines while an in-handler barrier provably holds several requests inside the wrapped handler at once (the evidence reports the maximum observed) and releases them in enumerated orders; handlers follow six scripts (nothing, Write, WriteHeader, 1xx+WriteHeader, Flush through a ResponseController, Hijack over the real server); log records (from copying and from slice-retaining slog handlers that yield at the suspension points), handler-side observations and client-side responses are grouped by id and must be mutually consistent; repeated under the race detector, with GOMAXPROCS=2 over a real loopback server with keep-alive clients (origin-form, absolute-form and * request targets, chunked bodies with trailers), and with golibs' own JSONHybridHandler carrying 0..12 chained attributes as the base logger. One environment puts a middleware in front of the LogMiddleware that answers 404 when the wrapped handler wrote nothing (nothing may have been committed on its behalf). Middleware order is checked for every permutation of up to 5/7 middlewares, wrapping the same slice repeatedly. Exploration over schedules.",
     note="Trusts net/http/httptest and the race detector. Handlers set at most one final status code.",
     technique="runtime per-id trace checker over recorded log records and responses, barrier-forced overlap, race detector",
 )
